@@ -738,7 +738,7 @@ Definition pinned_cfg : cfg := {|
   g_reserved := [tx "_source"; tx "_classification"; tx "_generated"; tx "_version"];
   g_default_term := CRLF;
   g_term_repl := [([92; 114], [CR]); ([92; 110], [LF]); ([92; 116], [9])];
-  g_csv_se := false;
+  g_csv_se := true;
   g_hdr_pre := tx "--[ RECORD ";
   g_hdr_suf := tx " ]--" ++ [LF];
   g_line_sep := tx " = ";
@@ -751,8 +751,8 @@ Definition pinned_cfg : cfg := {|
   g_text_end := [LF];
   g_text_se := true
 |}.
-(* the pinned constants with another error handler for the CSV file (the proposed repair of the strict
-   encoder changes exactly this one fact) *)
+(* a configuration with another error handler for the CSV file (what the tree was before the file was opened
+   with errors=surrogateescape; used for the witness against the flipped fact) *)
 Definition set_csv_se (c : cfg) (b : bool) : cfg := {|
   g_reserved := g_reserved c; g_default_term := g_default_term c; g_term_repl := g_term_repl c;
   g_csv_se := b;
